@@ -134,6 +134,7 @@ def gen_spec(
     max_charges=3,
     max_size=3,
     syms=("Z2", "U1", "Z2Z2", "U1U1"),
+    via=None,
 ):
     kind = kind or rng.choice(["A", "F"])
     sym = sym or rng.choice(list(syms))
@@ -169,6 +170,8 @@ def gen_spec(
         "seed": rng.randrange(2**31),
         "dist": dist or rng.choice(["int", "int", "normal"]),
     }
+    if via is not None:
+        spec["via"] = via
     if kind == "F":
         g = GROUPS[sym]
         if g.parity(untuple(charge)):
@@ -221,20 +224,68 @@ def oddpos_arg(label):
 
 
 def build(spec):
-    """Build the array described by ``spec`` through the public constructor."""
+    """Build the array described by ``spec`` through a public constructor
+    (``spec["via"]``: the class itself, ``random``, ``from_fill_fn``,
+    ``from_blocks`` or ``from_dense``)."""
     cls, dynamic = get_class(spec["kind"], spec["sym"], spec["static"])
     indices = make_indices(spec)
     charge = untuple(spec["charge"])
-    blocks = {}
-    for sec in spec["sectors"]:
-        sec = untuple(sec)
-        shape = tuple(ix.size_of(c) for ix, c in zip(indices, sec))
-        blocks[sec] = _block_data(spec, sec, shape)
+    sectors = [untuple(s) for s in spec["sectors"]]
+    via = spec.get("via", "init")
     kw = {}
-    if dynamic:
-        kw["symmetry"] = spec["sym"]
     if spec["kind"] == "F":
         kw["oddpos"] = oddpos_arg(spec.get("oddpos"))
+
+    def data(sec):
+        shape = tuple(ix.size_of(c) for ix, c in zip(indices, sec))
+        return _block_data(spec, sec, shape)
+
+    if via in ("random", "from_fill_fn"):
+        symkw = {"symmetry": spec["sym"]} if dynamic else {}
+        if via == "random":
+            dist = "normal" if spec.get("dist") != "uniform" else "uniform"
+            x = cls.random(indices, charge=charge, seed=spec["seed"], dist=dist,
+                           dtype=spec["dtype"], **symkw, **kw)
+        else:
+            order = iter(range(10**6))
+
+            def fill(shape):
+                rng = np.random.default_rng([spec["seed"], next(order)])
+                z = rng.integers(-3, 4, size=shape).astype("float64") + 0.5
+                if "complex" in spec["dtype"]:
+                    z = z + 1j * rng.integers(-3, 4, size=shape)
+                return np.asarray(z).astype(spec["dtype"])
+
+            x = cls.from_fill_fn(fill, indices, charge=charge, **symkw, **kw)
+        # the library fills every sector it considers valid: keep the listed ones
+        keep = set(sectors)
+        for s in list(x.blocks):
+            if s not in keep:
+                del x.blocks[s]
+        return x
+    blocks = {sec: data(sec) for sec in sectors}
+    if via == "from_blocks" and blocks:
+        duals = [ix.dual for ix in indices]
+        return cls.from_blocks(blocks, duals, charge=charge,
+                               symmetry=spec["sym"] if dynamic else None, **kw)
+    if via == "from_dense" and not dynamic and indices:
+        # labels of the dense axes, in sorted-charge order of each index
+        tmp = cls(indices=indices, charge=charge, blocks=blocks, **kw)
+        if tmp.num_blocks:
+            dense = tmp.to_dense()
+            maps = []
+            for ix in indices:
+                m = {}
+                i = 0
+                for c in sorted(ix.chargemap):
+                    for _ in range(ix.chargemap[c]):
+                        m[i] = c
+                        i += 1
+                maps.append(m)
+            return cls.from_dense(dense, maps, [ix.dual for ix in indices],
+                                  charge=charge, invalid_sectors="ignore", **kw)
+    if dynamic:
+        kw["symmetry"] = spec["sym"]
     return cls(indices=indices, charge=charge, blocks=blocks, **kw)
 
 
